@@ -774,12 +774,37 @@ fn violation_task(h: &mut Harness) -> Result<Value, String> {
 
 pub fn handle_factory() -> impl FnMut(&str, &Value, &mut WorkerIo) -> (Value, bool) {
     let mut h = Harness::new(SrvOpts::default());
+    // the same matrix with somebody watching: slow log, statistics and MONITOR support configured (another implementation
+    // of the per-command bookkeeping runs then), the slow log taking every command and a MONITOR client attached
+    let mut h_obs = Harness::new(SrvOpts { monitoring: true, ..SrvOpts::default() });
+    let mut monitor: Option<(usize, crate::srv::Client)> = None;
     move |tier: &str, task: &Value, io: &mut WorkerIo| {
         let thorough = tier == "thorough";
+        let mut watch = |h_obs: &mut Harness| -> Result<(), String> {
+            h_obs.ensure()?;
+            if monitor.as_ref().map(|(r, m)| *r != h_obs.restarts || !m.is_open()).unwrap_or(true) {
+                h_obs.aux_call(&["CONFIG", "SET", "slowlog-log-slower-than", "0"])?;
+                let mut m = h_obs.srv.as_ref().unwrap().connect().map_err(|e| format!("connect: {:?}", e))?;
+                m.send(&resp::cmd(&["MONITOR"]));
+                let _ = h_obs.srv.as_ref().unwrap().steps(3);
+                monitor = Some((h_obs.restarts, m));
+            }
+            if let Some((_, m)) = monitor.as_mut() {
+                m.poll();
+                m.buf.clear();
+            }
+            Ok(())
+        };
         if let Some(r) = task.get("replay") {
             if let Some(i) = r["matrix_index"].as_u64() {
                 let cases = matrix_cases(r["thorough"].as_bool().unwrap_or(false));
                 if let Some(c) = cases.get(i as usize) {
+                    if r["observed"].as_bool().unwrap_or(false) {
+                        return (match watch(&mut h_obs).and_then(|_| run_matrix_case(&mut h_obs, i as usize, c)) {
+                            Ok((o, d)) => json!({"outcome": o, "detail": d}),
+                            Err(e) => json!({"machinery_error": e}),
+                        }, false);
+                    }
                     return (match run_matrix_case(&mut h, i as usize, c) {
                         Ok((o, d)) => json!({"outcome": o, "detail": d}),
                         Err(e) => json!({"machinery_error": e}),
@@ -793,14 +818,20 @@ pub fn handle_factory() -> impl FnMut(&str, &Value, &mut WorkerIo) -> (Value, bo
             let (a, b) = (range[0].as_u64().unwrap_or(0) as usize, range[1].as_u64().unwrap_or(0) as usize);
             let mut recs = Vec::new();
             let mut errors = Vec::new();
+            let observed = task["observed"].as_bool().unwrap_or(false);
             for i in a..b.min(cases.len()) {
-                io.announce_case(json!({"matrix": i, "cmd": resp::show_cmd(&cases[i].cmd)}));
-                match run_matrix_case(&mut h, i, &cases[i]) {
+                io.announce_case(json!({"matrix": i, "cmd": resp::show_cmd(&cases[i].cmd), "observed": observed}));
+                if observed && matches!(cases[i].name.as_str(), "MONITOR" | "CLIENT" | "CONFIG" | "SLOWLOG") {
+                    // these talk about the watchers themselves
+                    continue;
+                }
+                let r = if observed { watch(&mut h_obs).and_then(|_| run_matrix_case(&mut h_obs, i, &cases[i])) } else { run_matrix_case(&mut h, i, &cases[i]) };
+                match r {
                     Ok((o, d)) => recs.push(json!({"i": i, "outcome": o, "detail": d})),
-                    Err(e) => errors.push(format!("case {}: {}", i, e)),
+                    Err(e) => errors.push(format!("case {}{}: {}", i, if observed { " (observed)" } else { "" }, e)),
                 }
             }
-            return (json!({"recs": recs, "errors": errors}), h.restarts > 100);
+            return (json!({"recs": recs, "errors": errors}), h.restarts > 100 || h_obs.restarts > 100);
         }
         if task.get("segments").is_some() {
             return (match segment_task(&mut h, &task["segments"]) {
@@ -830,6 +861,11 @@ pub fn parent(tier: &str) -> i32 {
         tasks.push(json!({"matrix": [i, (i + chunk).min(cases.len())]}));
         i += chunk;
     }
+    i = 0;
+    while i < cases.len() {
+        tasks.push(json!({"matrix": [i, (i + chunk).min(cases.len())], "observed": true}));
+        i += chunk;
+    }
     let nmatrix = tasks.len();
     // pipelines
     let pl = pipelines(if thorough { 3 } else { 2 });
@@ -848,6 +884,7 @@ pub fn parent(tier: &str) -> i32 {
     let mut nontrivial: BTreeSet<String> = BTreeSet::new();
     let mut samples: Vec<Value> = Vec::new();
     let mut seg_exec = 0u64;
+    let mut observed_n = 0u64;
     let mut violation_summary = Vec::new();
     for (ti, (t, o)) in tasks.iter().zip(out.iter()).enumerate() {
         match o {
@@ -861,6 +898,10 @@ pub fn parent(tier: &str) -> i32 {
                         let idx = r["i"].as_u64().unwrap_or(0) as usize;
                         let c = &cases[idx];
                         let outcome = r["outcome"].as_str().unwrap_or("").to_string();
+                        let observed = t["observed"].as_bool().unwrap_or(false);
+                        if observed {
+                            observed_n += 1;
+                        }
                         outcomes.insert(outcome.clone());
                         nontrivial.insert(format!("{}|{}|{}", c.name, c.variant, c.state));
                         if samples.len() < 3 && c.variant.starts_with("hostile") {
@@ -869,8 +910,8 @@ pub fn parent(tier: &str) -> i32 {
                         if outcome != "ok" {
                             report.deviations.push(Deviation {
                                 property: "C05".into(),
-                                sig: format!("C05|MATRIX|{}|{}|{}|{}", c.name, c.variant, cmdtable::key_states()[c.state].0, outcome),
-                                replay: json!({"kind": "matrix", "matrix_index": idx, "thorough": thorough, "detail": r["detail"]}),
+                                sig: format!("C05|MATRIX{}|{}|{}|{}|{}", if observed { "(observed)" } else { "" }, c.name, c.variant, cmdtable::key_states()[c.state].0, outcome),
+                                replay: json!({"kind": "matrix", "matrix_index": idx, "thorough": thorough, "observed": observed, "detail": r["detail"]}),
                             });
                         }
                     }
@@ -901,14 +942,14 @@ pub fn parent(tier: &str) -> i32 {
     if samples.is_empty() {
         samples.push(json!({"note": "no sample collected"}));
     }
-    println!("  c05: matrix cases={} segmentation executions={} distinct outcomes={:?}", evaluations, seg_exec, outcomes);
+    println!("  c05: matrix cases={} (of them {} with monitoring configured and a MONITOR client attached) segmentation executions={} distinct outcomes={:?}", evaluations, observed_n, seg_exec, outcomes);
     report.coverage = json!({
         "evaluations": evaluations + seg_exec,
         "distinct_nontrivial": nontrivial.len(),
         "rule": "finite products enumerated completely: (command name from the dispatch table incl. names scraped from the source) x (arity 0..max+2) x (argument class: example, non-numeric, CR/LF-bearing in each position) x (key state: missing + six types), each sent as ECHO m1, <cmd>, ECHO m2 in one write on a fresh connection; pipelines of 1-2 (thorough 3) commands from a 12-command mix x every segmentation with <= 1 (thorough 2) cuts, every segmentation of streams <= 14 bytes and the one-byte-at-a-time segmentation; 14 protocol violations; 1/2/10/1000 commands per read. A case is distinct by (command, variant, key state).",
         "samples": samples,
         "exhaustive": true,
-        "matrix_cases": evaluations, "segmentation_executions": seg_exec, "distinct_outcomes": outcomes.iter().cloned().collect::<Vec<_>>(),
+        "matrix_cases": evaluations, "matrix_cases_observed": {"n": observed_n, "what": "the whole matrix a second time on a server with slow log, statistics and MONITOR support configured, slowlog-log-slower-than 0 and a MONITOR client attached (MONITOR, CLIENT, CONFIG, SLOWLOG themselves left out)"}, "segmentation_executions": seg_exec, "distinct_outcomes": outcomes.iter().cloned().collect::<Vec<_>>(),
         "protocol_violation_outcomes": violation_summary,
         "excluded_commands": cmdtable::TABLE.iter().filter_map(|(n, _)| cmdtable::excluded(n).map(|r| json!({"command": n, "reason": r}))).collect::<Vec<_>>(),
     });
